@@ -2,6 +2,7 @@
      toks   <text>                              -> ok <tok,tok,...>
      cond   <fx> <flavor> <types,> <text>       -> ok <value> | err <kind>
      args   <fx> <argstr>                       -> ok <arg,arg,...>
+     aclass <argstr>                            -> in <arg,arg,...> | out     (args_class: the argument grammar)
      class  <fx> <line>                         -> ok <kind>
      blocks <fx> <top> <text>                   -> ok <lbb&lbb&...> | err <kind>
      table  <fx> <top> <flavor> <types,> <text> -> ok <action|action...> | err <kind>
@@ -49,6 +50,10 @@ let handle (f : Stdlib.String.t array) : Stdlib.String.t =
      | Ok v -> "ok\t" ^ show_value v
      | Err k -> "err\t" ^ err_name k)
   | "args" -> "ok\t" ^ enc_strlist ',' (split_args (fx_of f.(1)) (dec_str f.(2)))
+  | "aclass" ->
+    (match args_class (dec_str f.(1)) with
+     | Some l -> "in\t" ^ enc_strlist ',' l
+     | None -> "out")
   | "class" -> "ok\t" ^ show_kind (classify (fx_of f.(1)) (dec_str f.(2)))
   | "blocks" ->
     (match read_text (fx_of f.(1)) (eb_of f.(1)) (dec_str f.(2)) (dec_str f.(3)) with
